@@ -67,9 +67,11 @@ type RaftPeer struct {
 	Cfg    *raft.Config
 	Folder string
 	Tuning RaftTuning
-	Init   []peer.ID
-	client *rpc.Client
-	up     bool
+	// Retries overrides commit_retries (default 2) when set; 0 is legal
+	Retries *int
+	Init    []peer.ID
+	client  *rpc.Client
+	up      bool
 	// RefuseRedirects makes the Consensus RPC service fail the next n
 	// redirected LogPin/LogUnpin calls before they reach the component
 	refuseMu        sync.Mutex
@@ -136,6 +138,9 @@ func (p *RaftPeer) mkConfig() *raft.Config {
 	cfg.WaitForLeaderTimeout = 20 * time.Second
 	cfg.NetworkTimeout = 5 * time.Second
 	cfg.CommitRetries = 2
+	if p.Retries != nil {
+		cfg.CommitRetries = *p.Retries
+	}
 	cfg.CommitRetryDelay = 50 * time.Millisecond
 	cfg.BackupsRotate = 2
 	cfg.RaftConfig.HeartbeatTimeout = 200 * time.Millisecond
